@@ -191,6 +191,13 @@ func (e *c13EpEnv) id(ue *UdpEndpoint) int {
 	return i
 }
 
+func (e *c13EpEnv) isPooled(ue *UdpEndpoint) bool {
+	sh := e.pool.shardFor(ue.poolKey)
+	sh.mu.RLock()
+	defer sh.mu.RUnlock()
+	return sh.pool[ue.poolKey] == ue
+}
+
 func (e *c13EpEnv) dials() int {
 	n := 0
 	for _, u := range e.under {
@@ -417,9 +424,10 @@ func c13RunEpSeq(t *testing.T, s *VStream, stats *VStats, r *VRand) {
 					continue
 				}
 				ue := e.eps[id]
-				k := r.Intn(6)
-				if r.Chance(0.8) {
-					k = int(ue.poolKey.Src.Port()) - 30000
+				k := int(ue.poolKey.Src.Port()) - 30000
+				if !e.isPooled(ue) && r.Chance(0.3) {
+					// a stale Remove (the endpoint is gone already) under an arbitrary key: only closes (no-op)
+					k = r.Intn(6)
 				}
 				err := e.pool.Remove(c13EpKey(k, symOf[k]), ue)
 				synctest.Wait()
@@ -431,8 +439,8 @@ func c13RunEpSeq(t *testing.T, s *VStream, stats *VStats, r *VRand) {
 				emit(fmt.Sprintf("ep remove %d %d", k, id), out)
 			case c < 77:
 				id := pickEp()
-				if id < 0 {
-					continue
+				if id < 0 || e.isPooled(e.eps[id]) {
+					continue // production code closes an endpoint only after taking it out of the pool
 				}
 				_ = e.eps[id].Close()
 				synctest.Wait()
@@ -476,13 +484,189 @@ func c13RunEpSeq(t *testing.T, s *VStream, stats *VStats, r *VRand) {
 	})
 }
 
+// ---- concurrency windows of the pool, forced through the yield points and compared with the
+// sequential model in linearisation order (stream c13_epc) ----
+
+type c13Gate struct {
+	mu     sync.Mutex
+	want   map[string]bool // yield names at which goroutines park
+	parked chan *c13GatePark
+}
+type c13GatePark struct {
+	name   string
+	resume chan struct{}
+}
+
+func (g *c13Gate) hook(name string, _ ...any) {
+	g.mu.Lock()
+	w := g.want[name]
+	g.mu.Unlock()
+	if !w {
+		return
+	}
+	p := &c13GatePark{name: name, resume: make(chan struct{})}
+	g.parked <- p
+	<-p.resume
+}
+
+func (e *c13EpEnv) digestNoTime(symOf map[int]bool) string {
+	var pool []string
+	for k := 0; k < 6; k++ {
+		key := c13EpKey(k, symOf[k])
+		sh := e.pool.shardFor(key)
+		sh.mu.RLock()
+		ue := sh.pool[key]
+		sh.mu.RUnlock()
+		if ue != nil {
+			pool = append(pool, fmt.Sprintf("%d:%d", k, e.id(ue)))
+		}
+	}
+	ps := "-"
+	if len(pool) > 0 {
+		ps = strings.Join(pool, ",")
+	}
+	var eps []string
+	for i, ue := range e.eps {
+		closes := 0
+		if c, ok := ue.conn.(*c13Conn); ok && c != nil {
+			closes = int(c.closes.Load())
+		}
+		eps = append(eps, fmt.Sprintf("%d:f%sd%sc%ds%sr%s", i, c13B(ue.failed.Load()), c13B(ue.dead.Load()), closes,
+			c13B(ue.hasSent.Load()), c13B(ue.hasReply.Load())))
+	}
+	es := "-"
+	if len(eps) > 0 {
+		es = strings.Join(eps, " ")
+	}
+	return fmt.Sprintf("pool=%s dials=%d eps=%s", ps, e.dials(), es)
+}
+
+func (e *c13EpEnv) gocPlain(k int, d int) (*UdpEndpoint, bool, error) {
+	return e.pool.GetOrCreate(c13EpKey(k, false), &UdpEndpointOptions{
+		Ctx:        context.Background(),
+		Handler:    func(*UdpEndpoint, []byte, netip.AddrPort) error { return nil },
+		NatTimeout: 30 * time.Second,
+		GetDialOption: func(ctx context.Context) (*DialOption, error) {
+			return &DialOption{Target: c13Target, Dialer: e.dialers[d], Network: "udp"}, nil
+		},
+	})
+}
+
+func c13RunEpConcurrent(t *testing.T, stats *VStats) {
+	s := VOpenStream("c13_epc")
+	defer s.Close()
+	symOf := map[int]bool{}
+	rounds := 30
+	if VThorough() {
+		rounds = 600
+	}
+	for round := 0; round < rounds; round++ {
+		// (1) concurrent first packets: n goroutines all miss the fast path, then race for the creation lock
+		{
+			e := c13NewEpEnv()
+			g := &c13Gate{want: map[string]bool{"getOrCreate.afterFastPathMiss": true}, parked: make(chan *c13GatePark, 16)}
+			verifYieldHook = g.hook
+			n := 2 + round%3
+			type res struct {
+				ue    *UdpEndpoint
+				isNew bool
+				err   error
+			}
+			out := make(chan res, n)
+			for i := 0; i < n; i++ {
+				go func() {
+					ue, isNew, err := e.gocPlain(0, 0)
+					out <- res{ue, isNew, err}
+				}()
+			}
+			var parks []*c13GatePark
+			for i := 0; i < n; i++ {
+				parks = append(parks, <-g.parked) // everybody has seen the miss
+			}
+			g.mu.Lock()
+			g.want = map[string]bool{}
+			g.mu.Unlock()
+			for _, p := range parks {
+				close(p.resume)
+			}
+			s.Emit("ep reset", "ok")
+			news := 0
+			var results []res
+			for i := 0; i < n; i++ {
+				results = append(results, <-out)
+			}
+			verifYieldHook = nil
+			// linearisation order: the creator first
+			sort.SliceStable(results, func(a, b int) bool { return results[a].isNew && !results[b].isNew })
+			for _, r := range results {
+				o := "err-dial"
+				if r.err == nil {
+					if r.isNew {
+						news++
+						o = fmt.Sprintf("new %d", e.id(r.ue))
+					} else {
+						o = fmt.Sprintf("hit %d", e.id(r.ue))
+					}
+				}
+				s.Emit("ep goc 0 0 30000 - - 0 ok", o)
+			}
+			s.Emit("ep stx", e.digestNoTime(symOf))
+			stats.Inc(fmt.Sprintf("epc.firstPackets.n%d", n))
+			e.pool.Close()
+		}
+		// (2) retire (write error) parked after marking the endpoint dead, while the key is re-created
+		{
+			e := c13NewEpEnv()
+			ue1, _, err := e.gocPlain(1, 0)
+			if err != nil {
+				t.Fatalf("c13: setup dial failed: %v", err)
+			}
+			s.Emit("ep reset", "ok")
+			s.Emit("ep goc 1 0 30000 - - 0 ok", fmt.Sprintf("new %d", e.id(ue1)))
+			where := []string{"retire.afterMarkDead", "retire.afterSelfRemove"}[round%2]
+			g := &c13Gate{want: map[string]bool{where: true}, parked: make(chan *c13GatePark, 4)}
+			verifYieldHook = g.hook
+			done := make(chan error, 1)
+			ue1.conn.(*c13Conn).writeMode.Store(1)
+			go func() {
+				_, err := ue1.WriteTo([]byte("x"), c13Target)
+				done <- err
+			}()
+			p := <-g.parked
+			g.mu.Lock()
+			g.want = map[string]bool{}
+			g.mu.Unlock()
+			ue2, isNew, err2 := e.gocPlain(1, 0) // runs to completion inside the window
+			close(p.resume)
+			werr := <-done
+			verifYieldHook = nil
+			wout := "ok"
+			if werr != nil {
+				wout = "fail"
+			}
+			s.Emit(fmt.Sprintf("ep write %d err", e.id(ue1)), wout)
+			o := "err-dial"
+			if err2 == nil && isNew {
+				o = fmt.Sprintf("new %d", e.id(ue2))
+			} else if err2 == nil {
+				o = fmt.Sprintf("hit %d", e.id(ue2))
+			}
+			s.Emit("ep goc 1 0 30000 - - 0 ok", o)
+			s.Emit("ep stx", e.digestNoTime(symOf))
+			stats.Inc("epc.retireVsRecreate." + where)
+			e.pool.Close()
+		}
+	}
+	stats.Add("epc.ops", s.N)
+}
+
 func c13RunEp(t *testing.T, stats *VStats) {
 	s := VOpenStream("c13_ep")
 	defer s.Close()
 	r := NewVRand(VSeed() + 404)
-	n := 120
+	n := 300
 	if VThorough() {
-		n = 1500
+		n = 5000
 	}
 	n = VEnvInt("VERIF_C13_EP_SEQS", n)
 	for i := 0; i < n; i++ {
